@@ -31,6 +31,8 @@ type harnessSpec struct {
 	HangMs        int            `json:"hang_ms"`
 	Race          bool           `json:"race"`
 	TryWitnesses  int            `json:"try_witnesses"`
+	Redirects     map[string]string `json:"redirects"`    // full SSA function name -> harness function (same package as the harness)
+	SpuriousOK    bool           `json:"spurious_ok"`  // counterexamples that do not reproduce natively are counted as spurious (over-approximating harness)
 }
 
 type checkSpec struct {
@@ -100,6 +102,8 @@ func cmdRun(args []string) int {
 	verbose := fs.Bool("v", false, "print each path")
 	race := fs.Bool("race", false, "native replays run under the race detector")
 	cpuprof := fs.String("cpuprofile", "", "write cpu profile")
+	redirect := fs.String("redirect", "", "orig=harnessFn[,orig=harnessFn]")
+	spurious := fs.Bool("spurious-ok", false, "unreproduced counterexamples are spurious, not mismatches")
 	fs.Parse(args)
 	if fs.NArg() != 1 {
 		fmt.Fprintln(os.Stderr, "usage: symgo run [flags] HarnessFn")
@@ -117,6 +121,14 @@ func cmdRun(args []string) int {
 		return 2
 	}
 	hs := harnessSpec{Fn: fs.Arg(0), Pkg: *pkg, Quick: map[string]int{}, Budget: *budget, MapOrder: *mapOrder, MaxPaths: *maxPaths, Race: *race}
+	hs.SpuriousOK = *spurious
+	if *redirect != "" {
+		hs.Redirects = map[string]string{}
+		for _, kv := range strings.Split(*redirect, ",") {
+			p := strings.SplitN(kv, "=", 2)
+			hs.Redirects[p[0]] = p[1]
+		}
+	}
 	if *params != "" {
 		for _, kv := range strings.Split(*params, ",") {
 			p := strings.SplitN(kv, "=", 2)
@@ -163,6 +175,9 @@ func printHarnessResult(hr *harnessResult) {
 	}
 	for _, v := range hr.Unreproduced {
 		fmt.Printf("  UNREPRODUCED %s: %s\n", v.Key, v.Human)
+	}
+	for _, v := range hr.Spurious {
+		fmt.Printf("  SPURIOUS (over-approximation, does not reproduce through the real lexer) %s: %s\n", v.Key, v.Human)
 	}
 }
 
@@ -315,6 +330,7 @@ type harnessResult struct {
 	Wall         time.Duration
 	Violations   []*violation
 	Unreproduced []*violation
+	Spurious     []*violation
 	Mismatches   []string
 	Validated    int
 	Samples      []map[string]interface{}
